@@ -159,7 +159,23 @@ func twinRun(cpu *z80.CPU, maxSteps int, pl *irqPlan, lost *int, mem *mon.Mem, f
 		// no request accepted, PC still on it)
 		// (an accepting Step never starts with a read of the byte at PC: its first
 		// bus access is the push, and mode-0 instruction bytes come from the device)
-		executedHALT := len(mem.Log) > n0 && mem.Log[n0].Kind == 'R' && mem.Log[n0].Addr == pc && mem.Log[n0].Val == 0x76 && cpu.PC == pc
+		// (an implementation that gives ignored DD/FD prefixes their silicon meaning executes
+		// DD 76 as a HALT too: the fetched bytes are then prefixes followed by 76 and PC stays
+		// on one of them; on this tree DD 76 is swallowed and PC moves behind it)
+		executedHALT := false
+		for k := n0; k < len(mem.Log) && k < n0+4; k++ {
+			a := mem.Log[k]
+			if a.Kind != 'R' || a.Addr != pc+uint16(k-n0) {
+				break
+			}
+			if a.Val == 0x76 {
+				executedHALT = cpu.PC-pc <= uint16(k-n0)
+				break
+			}
+			if a.Val != 0xdd && a.Val != 0xfd {
+				break
+			}
+		}
 		if executedHALT != cpu.HALT {
 			*flagDisagrees = true
 		}
